@@ -143,8 +143,9 @@ assign_special_mpz(mpz_class& v, Result_Class c, Rounding_Dir) {
   case VC_NAN:
     if (Policy::has_nan) {
       set_mp_size(v, C_Integer<mp_size_field_t>::min + 1);
+      return V_NAN;
     }
-    return V_NAN;
+    return V_NAN | V_UNREPRESENTABLE;
   case VC_MINUS_INFINITY:
     if (Policy::has_infinity) {
       set_mp_size(v, C_Integer<mp_size_field_t>::min);
